@@ -111,7 +111,10 @@ class RefGateway:
 
     # -- inbound -----------------------------------------------------------------------------
 
-    def rx(self, line, observed):
+    def rx(self, line, observed, parked=None):
+        """``parked``: lines the implementation newly withheld for sleeping nodes in this step (decoded), per node id.
+        Only the id request uses it: the id is the implementation's choice also when its response is withheld."""
+        self._parked = parked or {}
         exp = Expect()
         try:
             fields = decode_line(line)
@@ -284,8 +287,23 @@ class RefGateway:
                 break
         dest = self.nodes.get(node)
         if cand is None and dest is not None and dest.asleep:
-            # reply may have been withheld for a sleeping requester: the model cannot see the id.
-            exp.id_response = "withheld"
+            # the response is withheld for a sleeping requester: adopt the id from the withheld line
+            held = [f for f in getattr(self, "_parked", {}).get(node, []) if f[2] == 3 and f[4] == 4]
+            if not held:
+                exp.id_response = "withheld"
+                return
+            cand = held[0]
+            exp.id_response = cand[5]
+            try:
+                pid = int(cand[5])
+            except ValueError:
+                pid = None
+            exp.id_checked = (pid, set(self.nodes), set(self.handed_out))
+            if pid is not None:
+                if pid not in self.nodes:
+                    self.nodes[pid] = Node(pid)
+                self.handed_out.add(pid)
+            dest.held.append((node, 255, 3, 0, 4, cand[5]))
             return
         if cand is None:
             # silence is allowed when no id can be allocated; an id above every known / handed-out id can
